@@ -202,6 +202,41 @@ def harness_run(binp, pid, test, tier, seed, wdir, timeout):
     return json.load(open(rep_p))
 
 
+# ---------------------------------------------------------------- site scan (C20)
+
+def site_scan(repo):
+    """lists every place in the module's non-test code whose result could depend on something other
+    than (state, transaction, block header) and compares it with the reviewed list tools/c20_sites.json"""
+    scan_dir = os.path.join(VERIF, "tools", "scan")
+    binp = os.path.join(WORK, "scan")
+    with Lock("scan"):
+        rc, out = sh(["go", "build", "-o", binp, "."], cwd=scan_dir, env=GOENV, timeout=1200)
+    if rc != 0:
+        raise Broken("build of the site scanner (tools/scan)", out[-3000:])
+    rc, out = sh([binp, repo, "./modules/...", "./simapp/..."], cwd=repo, env=GOENV, timeout=1800)
+    if rc != 0:
+        raise Broken("site scan of %s" % repo, out[-3000:])
+    found = {}
+    for line in out.splitlines():
+        if not line.startswith("{"):
+            continue
+        s = json.loads(line)
+        k = (s["file"], s["func"], s["kind"], s["expr"])
+        found.setdefault(k, []).append(s["line"])
+    listed = {(o["file"], o["func"], o["kind"], o["expr"]): o for o in json.load(open(os.path.join(VERIF, "tools", "c20_sites.json")))}
+    new = []
+    for k, lines in sorted(found.items()):
+        allowed = listed.get(k, {}).get("count", 0)
+        if len(lines) > allowed:
+            new.append({"file": k[0], "func": k[1], "kind": k[2], "expr": k[3], "lines": lines, "listed_count": allowed})
+    gone = [list(k) for k in listed if k not in found]
+    by_kind = {}
+    for k, lines in found.items():
+        by_kind[k[2]] = by_kind.get(k[2], 0) + len(lines)
+    return {"sites": sum(len(v) for v in found.values()), "by_kind": by_kind, "unlisted": new, "listed_but_gone": gone,
+            "covered_by_theorem": sum(1 for o in listed.values() if o["covered_by"].startswith("theorem"))}
+
+
 # ---------------------------------------------------------------- known findings
 
 def load_known(pid):
@@ -255,6 +290,7 @@ def main(argv):
     violations = []   # dicts: kind, what, input
     known_seen = {}
     assum, rep = [], None
+    scan = None
     mism, ncases, nshards = [], 0, 0
     coqchk = None
     try:
@@ -271,6 +307,8 @@ def main(argv):
             extra = [x for x in a["axioms"] if x not in ALLOWED_AXIOMS]
             if extra:
                 raise Broken("theorem %s depends on unexpected axioms" % a["theorem"], str(extra))
+        if cfg.get("site_scan"):
+            scan = site_scan(os.environ.get("VERIF_REPO") or REPO)
         binp = harness_build(pid)
         rep = harness_run(binp, pid, cfg["test"], tier, seed, wdir, cfg.get("timeout", {}).get(tier, 1500))
         mism, ncases, nshards = eval_cases(pid, wdir)
@@ -298,6 +336,11 @@ def main(argv):
         for i in mism[:50]:
             descs.append({"case_index": i, "case": json.loads(lines[i]) if i < len(lines) else None})
 
+    if scan and scan["unlisted"]:
+        violations.append({"kind": "obligation",
+                           "what": "%d site(s) where the result may depend on map order, the clock, a random source, the OS, the scheduler or a memory address are not covered by a theorem of Properties/%s.v or by the reviewed list tools/c20_sites.json" % (len(scan["unlisted"]), pid),
+                           "unlisted_sites": scan["unlisted"],
+                           "theorems_no_longer_tied": [a["theorem"] for a in assum]})
     if failing_inputs:
         violations.append({"kind": "oracle", "what": failing_inputs[0]["what"],
                            "failing_inputs": failing_inputs[:20], "n_failing": len(failing_inputs)})
@@ -308,7 +351,7 @@ def main(argv):
                            "theorems_no_longer_tied": [a["theorem"] for a in assum]})
 
     wall = time.time() - t0
-    write_evidence(pid, cfg, tier, seed, assum, rep, ncases, nshards, mism, known_seen, violations, wall, coqchk)
+    write_evidence(pid, cfg, tier, seed, assum, rep, ncases, nshards, mism, known_seen, violations, wall, coqchk, scan)
 
     for sig, f in known_seen.items():
         print("KNOWN-FINDING: property=%s %s [%s]" % (pid, known_sigs[sig]["what"], sig))
@@ -338,7 +381,7 @@ def run_coqchk(pid):
     return tail
 
 
-def write_evidence(pid, cfg, tier, seed, assum, rep, ncases, nshards, mism, known_seen, violations, wall, coqchk):
+def write_evidence(pid, cfg, tier, seed, assum, rep, ncases, nshards, mism, known_seen, violations, wall, coqchk, scan=None):
     obligations = len(assum)
     discharged = sum(1 for a in assum if a["closed"] or all(x in ALLOWED_AXIOMS for x in a["axioms"]))
     if any(v["kind"] == "broken" for v in violations) and not assum:
@@ -366,6 +409,8 @@ def write_evidence(pid, cfg, tier, seed, assum, rep, ncases, nshards, mism, know
     }
     if coqchk:
         cov["coqchk_tail"] = coqchk[-1500:]
+    if scan:
+        cov["site_scan"] = scan
     ev = {
         "property_id": pid,
         "tier": tier,
